@@ -7,7 +7,7 @@ import re
 
 from ..core import Checker, Rule, attr_calls, callee_is, calls_in, kwarg, resolved_calls, short
 from ..interp import Pins, find_nodes, unparse
-from .util import ancestors, enclosing_loop, on_path_before, enclosing_stmt, every_iteration_reaches, fmt, is_const, parent, returns_of, same, single_def
+from .util import ancestors, enclosing_loop, on_path_before, enclosing_stmt, every_iteration_reaches, fmt, is_const, parent, returns_of, same, single_def, resolved, contributions
 
 P = ("C10", "C01", "C06")
 LC = "literal_duplication:LiteralCollector"
@@ -111,7 +111,8 @@ def r_renaming(ck: Checker) -> None:
     un = ck.func("literal_duplication:unanonymize_variables")
     rets = returns_of(un)
     v, m = un.params()
-    ok = len(rets) == 1 and unparse(rets[0].value).replace(" ", "") == f"[var.update(name={m}[var.name])forvarin{v}ifvar.namein{m}]"  # type: ignore[arg-type]
+    rv = resolved(un, rets[0].value) if len(rets) == 1 else None
+    ok = rv is not None and same(unparse(rv), f"[var.update(name={m}[var.name]) for var in {v} if var.name in {m}]")
     ck.add("inverse renaming is applied position-wise", ok, un, un.node, f"`{fmt(rets[0]) if rets else None}`", "")
 
 
@@ -130,8 +131,7 @@ def r_rebuild(ck: Checker) -> None:
         txt = unparse(lit).replace(" ", "")
         ok = txt == f"Literal(LOC,Sign.NoSign,SymbolicAtom(Function(LOC,{func.params()[2]},{func.params()[3]},False)))"
         ck.add("inserted literal is the positive aux atom", ok, func, lit, f"`{txt}`", "")
-    comps = [n for n in find_nodes(func.node, lambda n: isinstance(n, ast.ListComp))]
-    removed = [unparse(c).replace(" ", "") for c in comps if f"notin{rb}.original_literals" in unparse(c).replace(" ", "")]
+    removed = [fmt(n) for n in find_nodes(func.node, lambda n: isinstance(n, ast.If)) if re.fullmatch(rf"\w+ not in {rb}\.original_literals", unparse(n.test)) and len(n.body) == 1 and ".append(" in unparse(n.body[0])]  # type: ignore[attr-defined]
     ck.add("exactly the original literals of the occurrence are removed (in each of the three scopes)", len(removed) == 3, func, func.node, f"{removed}", "")
     # what is left of the rule body in each scope
     rets = [r for r in returns_of(func) if r.value is not None]
@@ -139,23 +139,20 @@ def r_rebuild(ck: Checker) -> None:
     nb = rets[0].value.id  # type: ignore[union-attr]
     rule_d = single_def(func, "rule")
     ck.need(rule_d is not None, "the rule is looked up once")
-    apps = [c for c in attr_calls(func, "append") if unparse(c.func.value) == nb]  # type: ignore[attr-defined]
+    contrib = contributions(func, nb)
+    apps = [c for c in attr_calls(func, "append") if unparse(c.func.value) == nb and enclosing_loop(func, c) is None]  # type: ignore[attr-defined]
     ck.need(len(apps) == 3, "the rewritten part is appended to the new body in each scope")
     for app in apps:
         body_scope = it.holds(app, f"not {rb}.sub_ast")
-        effects = []
-        before = sorted(on_path_before(func, app), key=lambda s: s.lineno)
-        for node in [n for s in before for n in ast.walk(s) if isinstance(n, (ast.Assign, ast.AnnAssign, ast.AugAssign, ast.Call))]:
-            if isinstance(node, ast.Call):
-                if isinstance(node.func, ast.Attribute) and unparse(node.func.value) == nb:
-                    effects.append(node)
-            elif any(isinstance(n, ast.Name) and n.id == nb for t in (node.targets if isinstance(node, ast.Assign) else [node.target]) for n in ast.walk(t)):
-                effects.append(node)
+        before = on_path_before(func, app)
+        got = [t for s, t in contrib if any(s is b for b in before)]
+        others = [unparse(n) for s in before for n in ast.walk(s) if isinstance(n, ast.Call) and isinstance(n.func, ast.Attribute) and unparse(n.func.value) == nb and n.func.attr not in ("append", "extend")]
+        inits = [unparse(s.value) for s in before if isinstance(s, (ast.Assign, ast.AnnAssign)) and s.value is not None and unparse(s.targets[0] if isinstance(s, ast.Assign) else s.target) == nb]
         want = f"[lit for lit in rule.body if lit not in {rb}.original_literals]" if body_scope else f"[lit for lit in rule.body if lit != {rb}.sub_ast]"
-        got = [unparse(e.value) if isinstance(e, (ast.Assign, ast.AnnAssign)) and e.value is not None else unparse(e) for e in effects]
-        ok = len(effects) == 1 and isinstance(effects[0], (ast.Assign, ast.AnnAssign)) and same(got[0], want)
-        if not ok and not body_scope and len(effects) == 2:  # copy of the body, then remove the rewritten literal
-            ok = got[0] in ("list(rule.body)", "[*rule.body]", "rule.body[:]") and same(got[1], f"{nb}.remove({rb}.sub_ast)")
+        ok = len(got) == 1 and same(got[0], want) and not others and inits == ["[]"]
+        if not ok and not body_scope and not got:  # copy of the body, then remove the rewritten literal
+            ok = inits in (["list(rule.body)"], ["[*rule.body]"], ["rule.body[:]"]) and len(others) == 1 and same(others[0], f"{nb}.remove({rb}.sub_ast)")
+        got = inits + got + others
         ck.add("body scope: all other body literals are kept" if body_scope else "condition / aggregate scope: every body literal except the rewritten one is kept", ok, func, app,
                f"new body before the append is built by {got}; expected `{want}`",
                "the aux atom stands for the set only where it was inserted: inside a condition it does not cover an equal literal at body level, so nothing else may disappear from the body")
